@@ -47,6 +47,9 @@ struct Cell {
   late_reader: bool,
   how: How,
   hwm: i32,
+  /// the network towards the receiver does not move from before the first send until after
+  /// close()/term() has returned (only with LINGER=0: with an infinite linger waiting is correct)
+  stalled: bool,
 }
 
 #[derive(Debug, Default, Clone)]
@@ -85,6 +88,9 @@ fn run_cell(c: Cell) -> world::WorldResult<Out> {
       }
     };
     settle_n(5).await;
+    if let (true, Some(l)) = (c.stalled, &link) {
+      l.stall(world::Way::AtoB, true);
+    }
     let mut out = Out::default();
     for i in 0..c.queued {
       let mut body = payload(i as u32 + 1, c.size.max(8));
@@ -93,6 +99,10 @@ fn run_cell(c: Cell) -> world::WorldResult<Out> {
         out.accepted += 1;
       } else {
         break;
+      }
+      if c.stalled {
+        // let the session frame what it can: it ends up blocked in a write with data in hand
+        settle_n(2).await;
       }
     }
     // reader
@@ -162,6 +172,9 @@ fn run_cell(c: Cell) -> world::WorldResult<Out> {
       Err(_) => out.close_returned = false,
     }
     out.close_virtual_ms = t0.elapsed().as_millis() as u64;
+    if let (true, Some(l)) = (c.stalled, &link) {
+      l.stall(world::Way::AtoB, false);
+    }
     if let Ok(Ok((got, corrupt))) = tokio::time::timeout(Duration::from_secs(600), reader).await {
       out.received = got;
       out.corrupt = corrupt;
@@ -179,7 +192,7 @@ fn run_cell(c: Cell) -> world::WorldResult<Out> {
 fn judge(c: &Cell, o: &Out) -> Vec<(String, String, String)> {
   let mut v = vec![];
   let class = format!("{:?}:{}:linger{}", c.pair, match c.tr { Tr::Zmtp(64) => "zmtp-64B-link", Tr::Zmtp(_) => "zmtp", Tr::Inproc => "inproc" }, c.linger);
-  let ctxd = format!("{:?}, {}", c.how, if c.late_reader { "late reader" } else { "eager reader" });
+  let ctxd = format!("{:?}, {}{}", c.how, if c.late_reader { "late reader" } else { "eager reader" }, if c.stalled { ", network stalled" } else { "" });
   if o.corrupt {
     v.push(("corrupted-or-truncated-message".into(), class.clone(), "a received message does not match what was sent".into()));
   }
@@ -197,14 +210,14 @@ fn judge(c: &Cell, o: &Out) -> Vec<(String, String, String)> {
   match c.linger {
     0 => {
       if o.close_returned && o.close_virtual_ms > 1500 {
-        v.push(("linger-0-not-prompt".into(), class.clone(), format!("close/term took {} ms virtual with LINGER=0", o.close_virtual_ms)));
+        v.push(("linger-0-not-prompt".into(), class.clone(), format!("close/term took {} ms virtual with LINGER=0 ({}; {} messages of {} bytes accepted)", o.close_virtual_ms, ctxd, o.accepted, c.size)));
       }
     }
     _ => {
       // LINGER = -1 and a connected peer that is reading when close is issued: everything accepted
       // must arrive. (A peer application that only starts reading later is not 'reading'; what the
       // receiving socket does with unread messages when the sender disconnects is not LINGER's business.)
-      if c.pair != Pair::PubSub && !c.late_reader && o.received.len() != o.accepted {
+      if c.pair != Pair::PubSub && !c.late_reader && !c.stalled && o.received.len() != o.accepted {
         v.push((
           "linger-infinite-lost-messages".into(),
           class.clone(),
@@ -234,7 +247,10 @@ fn cells(tier: Tier) -> Vec<Cell> {
                 if tier == Tier::Quick && how == How::DropThenTerm && (queued == 0 || size == 300) {
                   continue;
                 }
-                v.push(Cell { pair, tr, linger, queued, size, late_reader, how, hwm });
+                v.push(Cell { pair, tr, linger, queued, size, late_reader, how, hwm, stalled: false });
+                if linger == 0 && tr != Tr::Inproc && !late_reader && queued > 0 {
+                  v.push(Cell { pair, tr, linger, queued, size, late_reader, how, hwm, stalled: true });
+                }
               }
             }
           }
@@ -266,6 +282,9 @@ pub fn run(tier: Tier) -> Report {
       case.state = mc_core::digest(&(format!("{:?}", c), o.accepted, o.received.len()));
       for (clause, class, detail) in judge(&c, &o) {
         case.violations.push((clause, class, detail, wit.clone()));
+      }
+      if std::env::var("MC_C15_DUMP").is_ok() {
+        eprintln!("C15DUMP {:?} -> accepted={} received={} close_ms={} returned={}", c, o.accepted, o.received.len(), o.close_virtual_ms, o.close_returned);
       }
       if i % 211 == 0 {
         case.sample = Some(json!({"cell": format!("{:?}", c), "accepted": o.accepted, "received": o.received.len(), "close_ms_virtual": o.close_virtual_ms}));
